@@ -201,6 +201,34 @@ def inbound(M, F, R, corrupt=None):
     return h
 
 
+def big_read(M, F):
+    """a snapshot-sized response: F full frames and a last one of arbitrary length arrive in ONE read (asyncio hands over up to
+    256 KiB per call) - every frame is delivered, nothing is refused for its size"""
+    def h(ex):
+        env = Env(M, ex)
+        key = env.key("a2c")
+        acc = env.encryptor(key)
+        stream = rope()
+        pts = []
+        for i in range(F + 1):
+            pt = ex.fresh_bytes("pt%d" % i, 1024 if i < F else 0, 1024, opaque=True)
+            hdr = le(slen(pt), 2)
+            stream = stream + hdr + acc.encrypt(env.b(hdr), env.b(env.nonce(i)), env.b(pt))
+            pts.append(pt)
+        err = None
+        with Recorder(M) as rec:
+            p = new_protocol(env, key, env.key("c2a"))
+            try:
+                p.data_received(env.b(stream))
+            except RuntimeError:
+                err = "RuntimeError"
+        ex.require(err is None, "inbound: a large read of genuine frames raises nothing")
+        ex.require(len(rec.delivered) == F + 1 and p.a2c_counter == F + 1, "inbound: every frame of a large read is delivered exactly once")
+        ex.require(slen(p._incoming_buffer) == 0, "inbound: buffer empty at the end")
+        return ex.observe([err, len(rec.delivered)])
+    return h
+
+
 # ------------------------------------------------------------------ outbound
 def outbound(M, max_len):
     """send_bytes(payload) for every payload length 0..max_len, from an arbitrary send counter"""
@@ -358,6 +386,7 @@ def build(tier, mutate=None):
     add("outbound/n<=%d" % out_max, outbound, out_max, split=True,
         bounds={"payload_len": "0..%d (symbolic)" % out_max, "send_counter": "0..2^40 (symbolic)"},
         regions=["multi-frame", "exact-multiple"])
+    add("inbound/one-read-of-%d-frames" % (66 + 1), big_read, 66, bounds={"frames": "66 full frames + one of 0..1024 bytes (symbolic)", "reads": 1, "bytes": "> 65553"})
     add("nonce-layout", nonce_layout, bounds={"counter": "0..2^64-1"})
     add("inbound/two-sessions", two_sessions, bounds={"leftover": "session 1 cut at any position inside its first frame", "plaintexts": "1..64 bytes each"})
     return units
